@@ -470,13 +470,24 @@ pub fn dt_families(out: &mut impl Write, rng: &mut Rng, thorough: bool) {
     for i in 0..n / 2 {
         let l1 = rand_ltt(rng);
         let l2 = rand_ltt(rng);
-        let u1 = rng.range(-4_000_000_000, 8_000_000_000);
+        // instants near the epoch, anywhere in the supported range (a flattened i64 nanosecond count saturates
+        // beyond ±292 years), and at the range ends
+        let u1 = match (i / 4) % 4 {
+            0 => rng.range(-4_000_000_000, 8_000_000_000),
+            1 => rng.range(MIN_UNIX_TIME, MAX_UNIX_TIME),
+            2 => rng.log_i64().clamp(MIN_UNIX_TIME, MAX_UNIX_TIME),
+            _ => if rng.below(2) == 0 { MIN_UNIX_TIME + rng.range(0, 3) } else { MAX_UNIX_TIME - rng.range(0, 3) },
+        };
         let ns1 = rng.below(1_000_000_000) as u32;
         let (u2, ns2) = match i % 4 {
             0 => (u1, ns1),
             1 => (u1, ns1.wrapping_add(1) % 1_000_000_000),
-            2 => (u1 + rng.range(-1, 1), ns1),
-            _ => (rng.range(-4_000_000_000, 8_000_000_000), rng.below(1_000_000_000) as u32),
+            2 => (u1.saturating_add(rng.range(-1, 1)), ns1),
+            _ => if rng.below(2) == 0 {
+                (rng.range(-4_000_000_000, 8_000_000_000), rng.below(1_000_000_000) as u32)
+            } else {
+                (u1.saturating_add(rng.log_i64() / 4), rng.below(1_000_000_000) as u32)
+            },
         };
         let ans = guarded(move || {
             let a = DateTime::from_timespec_and_local(u1, ns1, l1);
